@@ -61,4 +61,7 @@ def categorical_cross_entropy(
   """
   _check_y_true_contains_only_0_and_1(y_true)
 
-  return -np.sum(y_true * np.log(y_pred / np.sum(y_pred)))
+  y_true, y_pred = np.asarray(y_true), np.asarray(y_pred)
+  # Only the true classes contribute (0 * log(0) = 0 for the other classes).
+  is_true = y_true != 0
+  return -np.sum(np.log(y_pred[is_true] / np.sum(y_pred)))
